@@ -439,7 +439,7 @@ class Gen:
         parts.append('pub mod types {')
         parts.append('use vstd::prelude::*;')
         for pre in unit.preludes:
-            parts.append('use crate::%s::*;' % pre.split('_')[0])
+            parts.append('use crate::%s::*;' % pre.split('_')[0] if pre != 'alea' else 'use crate::alea;')
         parts.append('verus! {')
         typed_ax = []
         for tpath in unit.types:
@@ -510,7 +510,7 @@ class Gen:
         parts.append('use std::ops::{self, Deref, DerefMut, Index, IndexMut, Neg, Add, Sub, Mul, Div, AddAssign, SubAssign, MulAssign, DivAssign};')
         parts.append('use std::convert::{From, Into, TryInto, TryFrom};')
         for pre in unit.preludes:
-            parts.append('use crate::%s::*;' % pre.split('_')[0])
+            parts.append('use crate::%s::*;' % pre.split('_')[0] if pre != 'alea' else 'use crate::alea;')
         parts.append('/*USE-LITS*/')
         parts.append('verus! {')
         bc = list(unit.broadcast)
